@@ -82,7 +82,8 @@ def help_names(ex, parser):
     for nm in ("help_arg", "version_arg"):
         na = info.fields[fl.index(nm)]
         nf = L.adts["NamedArg"]["fields"]
-        out.append((list(na.fields[nf.index("short")].items), list(na.fields[nf.index("long")].items)))
+        from mirsym.models import rda
+        out.append(([rda(x) for x in na.fields[nf.index("short")].items], [rda(x) for x in na.fields[nf.index("long")].items]))
     has_version = info.fields[fl.index("version")].var == 1
     return out[0], out[1], has_version
 
